@@ -318,7 +318,14 @@ func c17IndexHolds(e *c17Entry, idx int) bool {
 	return err == nil && v == idx && !strings.ContainsAny(string(e.index), "+-")
 }
 
+// c17Hung: a request did not return; whatever it holds (a lock …) is package state of the library, so every later case
+// of this process would hang as well — the first one is reported and the run stops generating cases
+var c17Hung bool
+
 func c17RunCase(r *hx.Run, pre []c17Pre, init [][]byte, reqs []c17Req, tags ...string) {
+	if c17Hung {
+		return
+	}
 	t := newC17Tsm()
 	preSpecs := make([]string, 0, len(pre))
 	for _, p := range pre {
@@ -363,7 +370,8 @@ func c17RunCase(r *hx.Run, pre []c17Pre, init [][]byte, reqs []c17Req, tags ...s
 		}
 		t.ops = nil
 		var gerr error
-		res, stack := hx.Guard(func() string {
+		// a request that does not return (a lock left held by an earlier request …) is a failure, not a hung check
+		res, stack := hx.GuardTimeout(20*time.Second, func() string {
 			if q.kind == 'd' {
 				gerr = rtmr.ExtendDigestClient(t, q.idx, q.digest)
 			} else {
@@ -374,6 +382,13 @@ func c17RunCase(r *hx.Run, pre []c17Pre, init [][]byte, reqs []c17Req, tags ...s
 			}
 			return "ok"
 		})
+		if res == "hang" {
+			fail = fmt.Sprintf("request %d (%s) did not return within 20 s (after %d earlier requests of this history): neither a result nor an error", k, hx.Trunc(q.spec, 60), k)
+			results = append(results, "hang")
+			traces = append(traces, "-")
+			c17Hung = true
+			break
+		}
 		ops := t.ops
 		results = append(results, res)
 		txt := make([]string, len(ops))
@@ -535,7 +550,8 @@ func c17(r *hx.Run) {
 		b []byte
 		s string
 	}
-	logs := []lg{{[]byte{}, "-"}, {[]byte{0x5a}, "5a"}, {log1k, log1kS}}
+	// incl. logs that begin / end in whitespace or consist of it: the log is hashed as given, byte for byte
+	logs := []lg{{[]byte{}, "-"}, {[]byte{0x5a}, "5a"}, {log1k, log1kS}, {[]byte("\n"), "0a"}, {[]byte(" event\r\n"), hx.Hex([]byte(" event\r\n"))}, {[]byte{0x09, 0x00, 0x20}, "090020"}}
 
 	// (a) every single request of the alphabet under every pre-existing state
 	var alphabet []c17Req
@@ -662,7 +678,10 @@ func c17(r *hx.Run) {
 					l := hx.RandBytes(rng, 33)
 					want := d
 					var err error
-					res, stack := hx.Guard(func() string {
+					if c17Hung {
+						continue
+					}
+					res, stack := hx.GuardTimeout(20*time.Second, func() string {
 						if viaLog {
 							h := sha512.Sum384(l)
 							want = h[:]
@@ -684,6 +703,9 @@ func c17(r *hx.Run) {
 					switch {
 					case res == "panic":
 						fail = "crash: " + strings.SplitN(stack, "\n", 2)[0]
+					case res == "hang":
+						fail = "the request did not return within 20 s"
+						c17Hung = true
 					case nd != 1:
 						fail = fmt.Sprintf("a valid request whose digest write the TSM answered with an error performed %d digest writes, not exactly one", nd)
 					case wrong:
